@@ -680,6 +680,8 @@ impl TableNamespace {
     ) -> Result<MultimapTable<'txn, K, V>, TableError> {
         #[cfg(feature = "logging")]
         debug!("Opening multimap table: {definition}");
+        #[cfg(redb_verif)]
+        crate::verif::pause("X.inner_open");
         let (root, length) = self.inner_open::<K, V>(definition.name(), TableType::Multimap)?;
         self.set_dirty(transaction);
 
@@ -702,6 +704,8 @@ impl TableNamespace {
     ) -> Result<Table<'txn, K, V>, TableError> {
         #[cfg(feature = "logging")]
         debug!("Opening table: {definition}");
+        #[cfg(redb_verif)]
+        crate::verif::pause("X.inner_open");
         let (root, _) = self.inner_open::<K, V>(definition.name(), TableType::Normal)?;
         self.set_dirty(transaction);
 
@@ -1015,6 +1019,8 @@ impl WriteTransaction {
         read: impl FnOnce(&Btree<K, V>) -> Result<T>,
     ) -> Result<Option<T>> {
         let system_tables = self.system_tables.lock().unwrap();
+        #[cfg(redb_verif)]
+        crate::verif::pause("X.sysread.locked");
         let Some(root) = system_tables.get_system_table_root(definition)? else {
             return Ok(None);
         };
@@ -1153,6 +1159,8 @@ impl WriteTransaction {
         }
 
         let mut savepoint = self.ephemeral_savepoint()?;
+        #[cfg(redb_verif)]
+        crate::verif::pause("X.psp.system");
 
         let mut system_tables = self.system_tables.lock().unwrap();
 
@@ -1168,6 +1176,8 @@ impl WriteTransaction {
         drop(next_table);
 
         let mut savepoint_table = system_tables.open_system_table(SAVEPOINT_TABLE)?;
+        #[cfg(redb_verif)]
+        crate::verif::pause("X.psp.system.locked");
         savepoint_table.insert(
             savepoint.get_id(),
             SerializedSavepoint::from_savepoint(&savepoint),
@@ -2580,10 +2590,14 @@ impl WriteTransaction {
     /// transaction; their modifications are reflected once the handle is dropped.
     pub fn stats(&self) -> Result<DatabaseStats> {
         let tables = self.tables.lock().unwrap();
+        #[cfg(redb_verif)]
+        crate::verif::pause("X.stats.tables");
         let table_tree = &tables.table_tree;
         let data_tree_stats = table_tree.stats()?;
 
         let system_tables = self.system_tables.lock().unwrap();
+        #[cfg(redb_verif)]
+        crate::verif::pause("X.stats.system");
         let system_table_tree = &system_tables.table_tree;
         let system_tree_stats = system_table_tree.stats()?;
 
@@ -2657,6 +2671,19 @@ impl WriteTransaction {
 impl WriteTransaction {
     pub fn verif_tables_locked(&self) -> bool {
         self.tables.try_lock().is_err()
+    }
+
+    /// (tables mutex held, freed_pages mutex held -- `None` when the tables mutex, through which it is
+    /// reached, is held --, system_tables mutex held, length of the freed-pages list when both can be taken)
+    pub fn verif_locks(&self) -> (bool, Option<bool>, bool, Option<usize>) {
+        let system = self.system_tables.try_lock().is_err();
+        match self.tables.try_lock() {
+            Ok(tables) => match tables.freed_pages.try_lock() {
+                Ok(freed) => (false, Some(false), system, Some(freed.len())),
+                Err(_) => (false, Some(true), system, None),
+            },
+            Err(_) => (true, None, system, None),
+        }
     }
 }
 
